@@ -11,7 +11,7 @@ import tempfile
 from hypothesis import strategies as st
 
 from vlib import enc_xlsx, repo
-from vlib.runner import HarnessError, Sub
+from vlib.runner import HarnessError, Sub, reused_dir
 
 import cutplace
 from cutplace import errors, interface, rowio
@@ -253,10 +253,10 @@ def check_workbook(sub, case):
     boxes = [enc_xlsx.bounding_box(rows) for rows in sheets]
     nonstring = any(enc_xlsx.kind_of(cell) in ("n", "b", "d", "t") for rows in sheets for row in rows for cell in row)
     classes = ["workbooks", "sheets:%d" % count] + _cell_classes(sheets)
-    classes += ["option:" + name for name in ("inline", "date_1904") if options.get(name)]
+    classes += ["option:" + name for name in ("inline", "date_1904", "visibility") if options.get(name)]
     if options.get("names"):
         classes.append("option:names")
-    folder = tempfile.mkdtemp(prefix="c16-")
+    folder = reused_dir("c16")
     evals = 0
     try:
         path = os.path.join(folder, "case.xlsx")
@@ -332,9 +332,10 @@ def check_writer(sub, case):
     classes += ["writer:special-characters"] if special else []
     classes += ["writer:with-empty-cells"] if any(cell == "" for row in rows for cell in row) else []
     classes += ["writer:trailing-empty-cells"] if trailing_empties else []
-    folder = tempfile.mkdtemp(prefix="c16-")
+    folder = reused_dir("c16")
     try:
-        path = os.path.join(folder, "written.xlsx")
+        path = os.path.join(folder, case.get("name") or "written.xlsx")
+        classes.append("writer:name:%s" % ("plain" if not case.get("name") else "special"))
         try:
             writer = rowio.XlsxRowWriter(path)
             split = case.get("split")
@@ -626,12 +627,20 @@ def workbook_cases(draw):
         options["inline"] = True
     if draw(st.integers(0, 3)) == 0:
         options["names"] = ["Tabelle ä %d" % (count - index) for index in range(count)]
+    if count >= 2 and draw(st.integers(0, 2)) == 0:
+        # some sheets hidden from the user interface; they keep their place in the numbering
+        hidden = draw(st.lists(st.integers(0, count - 1), min_size=1, max_size=count - 1, unique=True))
+        options["visibility"] = dict((str(index), draw(st.sampled_from(["hidden", "veryHidden"]))) for index in hidden)
     case = {"kind": "workbook", "sheets": distinguishable(sheets), "options": options}
     if count < 3 and draw(st.integers(0, 2)) == 0:
         case["beyond"] = True
     return case
 
 
+# characters that mean something in sheet names, sheet references, shells, glob patterns or URLs; a very long name
+WRITER_FILE_NAMES = ["export[1].xlsx", "sales 2020:Q1.xlsx", "what now?.xlsx", "'draft'.xlsx", "a*b.xlsx", "x" * 60 + ".xlsx",
+                     "\xe4\u20ac \u4e2d.xlsx", "back\\slash.xlsx", "100%.xlsx", "a!b$c.xlsx", "History.xlsx", ".xlsx",
+                     "no-suffix", "two.dots.xlsx", "UPPER.XLSX", "#hash&amp;.xlsx"]
 LONG_TEXT_LENGTHS = [254, 255, 256, 1023, 8191, 8192, 32765, 32766]  # plus the closing "."
 
 
@@ -654,6 +663,9 @@ def writer_cases(draw):
         x = draw(st.integers(0, len(rows[y]) - 1))
         rows[y][x] = draw(st.sampled_from(["x", "\xe4", "<", " "])) * draw(st.sampled_from(LONG_TEXT_LENGTHS)) + "."
     case = {"kind": "writer", "rows": rows, "row_by_row": draw(st.booleans())}
+    if draw(st.integers(0, 3)) == 0:
+        # what the file is called says nothing about the table in it
+        case["name"] = draw(st.sampled_from(WRITER_FILE_NAMES))
     if len(rows) >= 2 and draw(st.integers(0, 2)) == 0:
         case["split"] = draw(st.integers(1, len(rows) - 1)) * draw(st.sampled_from([1, -1]))
     return case
